@@ -287,7 +287,7 @@ def run_history(spec, sessions=None, rng=None, nsess=0, nops=0, ctx=None, workdi
             try:
               with db_session:
                 w.con = None
-                k = 0
+                k = 0; extra = 0
                 closing = False
                 while True:
                     if pending is not None:
@@ -344,8 +344,8 @@ def run_history(spec, sessions=None, rng=None, nsess=0, nops=0, ctx=None, workdi
                     if findings: break
                     if op['k'] in ('commit', 'rollback') and pending is None:
                         # after a commit that raised the program may go on in the same db_session (new cache)
-                        if op['k'] == 'commit' and res['err'] is not None and k < nops + 6 and rng.random() < 0.6:
-                            nops = k + 3; continue
+                        if op['k'] == 'commit' and res['err'] is not None and extra < 2 and rng.random() < 0.6:
+                            extra += 1; nops = k + 3; continue
                         break
                 if findings: rollback()
             except Exception as e:
